@@ -94,7 +94,7 @@ def run_instances(prop, mod_name, instances, ctx, level="model_checking", assump
                 outs = {}
                 if cmd:
                     for prof in ("dev", "release"):
-                        outs[prof] = replay.run(cmd, case, profile=prof)
+                        outs[prof] = replay.run(cmd, case, profile=prof, timeout=getattr(inst, "native_timeout", 120))
                 confirmed = bool(cmd) and inst.confirm(v, outs)
                 if cmd and not confirmed and hasattr(inst, "amplify"):
                     # behaviour the language leaves unspecified (e.g. order of equal keys after an unstable sort) may need a larger
@@ -102,7 +102,7 @@ def run_instances(prop, mod_name, instances, ctx, level="model_checking", assump
                     amp = inst.amplify(v)
                     if amp is not None:
                         cmd2, case2 = amp
-                        outs2 = {prof: replay.run(cmd2, case2, profile=prof) for prof in ("dev", "release")}
+                        outs2 = {prof: replay.run(cmd2, case2, profile=prof, timeout=getattr(inst, "native_timeout", 120)) for prof in ("dev", "release")}
                         if inst.confirm(v, outs2):
                             confirmed, cmd, case, outs = True, cmd2, case2, outs2
                             v = dict(v, desc=v["desc"] + " [reproduced natively on the amplified history]")
@@ -119,7 +119,7 @@ def run_instances(prop, mod_name, instances, ctx, level="model_checking", assump
                 cmd0 = None; batch = []
                 for c in cases:
                     cmd0, cj = inst.native(c); batch.append(cj)
-                nat = replay.run(cmd0, {"batch": batch}, profile=getattr(inst, "native_profile", "dev"))
+                nat = replay.run(cmd0, {"batch": batch}, profile=getattr(inst, "native_profile", "dev"), timeout=1200)
                 nres = nat.get("results", [])
                 for c, f, n in zip(cases, futs, nres + [None] * (len(cases) - len(nres))):
                     try:
